@@ -77,6 +77,12 @@ def check_step(ctx, torch, pred0, adv0, pred, adv, X, Y, A, yloss, aloss, constr
     """One SGD step: (pred0, adv0) are copies taken before it, (pred, adv) the user-visible modules after it."""
     nontrivial = False
     wit = dict(wit, step=step + 1)
+    # float32 blow-up (large eta x alpha over several steps): once parameters or losses leave the range where float32
+    # arithmetic is meaningful, neither the engine's nor the reference's numbers say anything about the update RULE
+    big = max([float(p.detach().abs().max()) for m_ in (pred0, adv0, pred, adv) for p in m_.parameters() if p.numel()] + [0.0])
+    if not np.isfinite(big) or big > 1e4:
+        ctx.ev("steps_skipped_numerically_exploded")
+        return False
     # ---- reference gradients on the copies taken before the step
     Xt, Yt, At = torch.from_numpy(X).float(), torch.from_numpy(Y).float(), torch.from_numpy(A).float()
     yhat = pred0(Xt)
@@ -87,6 +93,10 @@ def check_step(ctx, torch, pred0, adv0, pred, adv, X, Y, A, yloss, aloss, constr
     LA = loss_fn(torch, aloss)(adv0(adv_in), At)
     dLA = torch.autograd.grad(LA, pparams, retain_graph=True, allow_unused=True)
     dLA_U = torch.autograd.grad(LA, list(adv0.parameters()), allow_unused=True)
+    gmax = max([float(t.abs().max()) for t in list(dLP) + list(dLA) + list(dLA_U) if t is not None and t.numel()] + [0.0])
+    if not np.isfinite(gmax) or gmax > 1e6 or not np.isfinite(float(LP)) or not np.isfinite(float(LA)):
+        ctx.ev("steps_skipped_numerically_exploded")
+        return False
     for i, (p_before, p_after) in enumerate(zip(pparams, pred.parameters())):
         gP = dLP[i] if dLP[i] is not None else torch.zeros_like(p_before)
         gA = dLA[i] if dLA[i] is not None else torch.zeros_like(p_before)
